@@ -981,4 +981,17 @@ theorem run_domInv {s : St} (h : DomInv s) (ops : List Op) : DomInv (run s ops) 
   | nil => exact h
   | cons op ops ih => exact ih (step_domInv h op)
 
+/-- the invariant of the good histories gives the reading of every live instance on both sides -/
+theorem read_of_inv {s : St} (hi : Inv s) (sd : Side) (j : Nat) (c : Col) (hj : j < (s.conn sd).n)
+    (hd : ((s.conn sd).insts j).destroyed = false) (hr : s.refused sd = false) :
+    (step s (.read sd j c)).2 = freshAnswer (s.view sd ((s.conn sd).insts j).key) c := by
+  cases hc : ((s.conn sd).insts j).cached c with
+  | none => exact opRead_fresh s sd j c hj hc hr
+  | some v =>
+    simp only [step, opRead_cached s sd j c v hj hc]
+    have := hi.coh sd j c v hd hc
+    cases hv : s.view sd ((s.conn sd).insts j).key with
+    | none => rw [hv] at this; simp at this
+    | some r => rw [hv] at this; simp at this; simp [freshAnswer, this]
+
 end SqlObjVerif.Tx
